@@ -328,3 +328,7 @@ def check(ctx):
     # header dependencies: both backends read the compiler's depfile back
     # for every object (shared with C07)
     c07.depfile_wiring(ctx)
+    # the shared _get_flags of make/ninja composes the flags in the order the
+    # compdb emitter spells out (shared with C16)
+    from . import c16
+    c16.flag_merge(ctx)
